@@ -195,6 +195,29 @@ def run(ctx):
     self_edge_obligation(ctx, u, "R13.6")
     rewalk_obligation(ctx, u, "R13.7")
     scan_evaluation(ctx, u, "R13.8")
+    # ---- R13.10: the port scan_deps finds for a sub-tree is the one that carries the metadata
+    ctx.rule("R13.10", "SUBTREE-FIRST: scan_deps looks a level up with Ports::apropos, which answers with the first port of the table whose name begins with the path; of the two ports rRecur / rRecurp emit for one member - "
+             "the sub-tree port `name/`, which carries rEnabledBy / rDepends, and the pointer port `name:` - the sub-tree port stands first in the table, else the dependency declared on a sub-tree is never found")
+    from ..rules import sugar as SG10
+    from ..facts import WITNESS_DIR as WD10
+    import os as os10
+    uw10 = ctx.ast("sugar_matrix.cpp")
+    by_line10 = {}
+    for L10 in SG10.lambdas(uw10, os10.path.join(WD10, "sugar_matrix.cpp")):
+        if L10.macro in ("rRecur", "rRecurp") and L10.portname:
+            by_line10.setdefault((L10.line, L10.macro, L10.field), []).append((L10.ordinal, L10.portname))
+    ctx.require(len(by_line10) >= 1, "R13.10: the rRecur expansion was not found in the witness (%d)" % len(by_line10))
+    for (ln10, mac10, fld10), ports10 in sorted(by_line10.items()):
+        ports10.sort()
+        names10 = [n_ for _o, n_ in ports10]
+        sub10 = [i_ for i_, n_ in enumerate(names10) if n_.split(":")[0].endswith("/")]
+        if len(names10) == 1 and sub10 == [0]:
+            continue                      # this macro emits the sub-tree port alone
+        ctx.require(len(sub10) == 1, "R13.10: %s(%s) does not emit one sub-tree port (%s)" % (mac10, fld10, names10))
+        ctx.ob("R13.10", "%s(%s)" % (mac10, fld10), sub10[0] == 0, site="%s:%s" % (os10.path.join(WD10, "sugar_matrix.cpp"), ln10), detail={"ports_in_table_order": names10},
+               key="R13.10:%s" % mac10,
+               what="%s emits its ports in the order %s: Ports::apropos finds `%s` first, which carries no metadata - a dependency declared on the sub-tree (rEnabledBy, rDepends) is never found and its lines are dispatched in file order" % (mac10, names10, names10[0]))
+
     # ---- R13.9: the topological sort itself, interpreted on small graphs
     ctx.rule("R13.9", "KAHN-EVALUATED: the topological sort of dispatch_printed_messages (in-degree table, queue of ready messages, release loop), interpreted on nine dependency graphs - among them a message reached over two edges "
              "that follow each other in the vector, a dependee listed twice, a diamond - puts every message exactly once into the order and in front of everything that waits for it")
